@@ -71,9 +71,102 @@ def has_scales(case):
         or "scale_der" in case or any("scale" in c for c in case.get("constraints", []))
 
 
+def scale_probe_worker(cfg):
+    """places where a declared scale is easily lost: grid='inf' constraints, constraints on a method-less master,
+    bspline variables, integer variables"""
+    from ..common import setup_rockit_path
+    rockit = setup_rockit_path()
+    import io, contextlib
+    import numpy as np
+    import casadi as ca
+    from .. import nlp
+    out = {}
+    try:
+        with contextlib.redirect_stdout(io.StringIO()), contextlib.redirect_stderr(io.StringIO()):
+            kind, sc = cfg["kind"], cfg["scale"]
+
+            def rows_of(ocp, xv=None):
+                opti = ocp._method.opti
+                f = ca.Function("f", [opti.x, opti.p], [opti.g, opti.lbg, opti.ubg])
+                xv = np.linspace(0.25, 1.5, opti.x.numel()) if xv is None else xv
+                g, lb, ub = [np.array(v).reshape(-1) for v in f(xv, opti.debug.value(opti.p, opti.initial()))]
+                return sorted(float(h) for s_, i_, q_, h in nlp.normal_rows(g, lb, ub) if s_ == 1)
+            M_ = {"MS": rockit.MultipleShooting, "SS": rockit.SingleShooting}.get(cfg.get("method"))
+            meth = lambda: (M_(N=2, M=1, intg="rk") if M_ else rockit.DirectCollocation(N=2, M=1, degree=4))
+            if kind == "inf":
+                res = []
+                for s_ in (1, sc):
+                    ocp = rockit.Ocp(T=1); x = ocp.state(); u = ocp.control()
+                    ocp.set_der(x, u); ocp.add_objective(ocp.integral(u ** 2))
+                    ocp.subject_to(x <= 4, grid="inf", scale=s_)
+                    ocp.method(meth()); ocp.solver("ipopt", {"ipopt.print_level": 0, "print_time": False})
+                    ocp.sample(x, grid="control")
+                    res.append(rows_of(ocp))
+                out["rows_unscaled"], out["rows_scaled"] = res
+            elif kind == "master":
+                res = []
+                for s_ in (1, sc):
+                    ocp = rockit.Ocp(); st = ocp.stage(t0=0, T=1); x = st.state(); u = st.control()
+                    st.set_der(x, u); st.add_objective(st.integral(u ** 2)); st.method(meth())
+                    ocp.subject_to(st.at_tf(x) <= 4, scale=s_)
+                    ocp.solver("ipopt", {"ipopt.print_level": 0, "print_time": False})
+                    st.sample(x, grid="control")
+                    res.append(rows_of(ocp))
+                out["rows_unscaled"], out["rows_scaled"] = res
+            elif kind == "bspline":
+                ocp = rockit.Ocp(T=1); x = ocp.state(); w = ocp.variable(grid="bspline", order=2, scale=sc)
+                ocp.set_der(x, w); ocp.add_objective(ocp.at_tf(x) ** 2 + ocp.sum(w ** 2))
+                ocp.method(meth()); ocp.solver("ipopt", {"ipopt.print_level": 0, "print_time": False})
+                _, ws = ocp.sample(w, grid="control")
+                opti = ocp._method.opti
+                J = np.array(ca.Function("j", [opti.x], [ca.jacobian(ws[0], opti.x)])(np.zeros(opti.x.numel()))).reshape(-1)
+                out["dphysical_dsolver_sum"] = float(J.sum())       # partition of unity: the sum is the scale
+            else:
+                ocp = rockit.Ocp(T=1); x = ocp.state(); n = ocp.variable(domain="integer", scale=sc)
+                ocp.set_der(x, n); ocp.add_objective(ocp.at_tf(x) ** 2 + (n - 7) ** 2)
+                ocp.method(meth()); ocp.solver("ipopt", {"ipopt.print_level": 0, "print_time": False})
+                nv = ocp.value(n)
+                opti = ocp._method.opti
+                out["integer_scaled_accepted"] = float(np.abs(np.array(ca.Function("j", [opti.x], [ca.jacobian(nv, opti.x)])(np.zeros(opti.x.numel())))).max())
+    except Exception as e_:
+        out["error"] = "%s: %s" % (type(e_).__name__, str(e_)[:150])
+    return out
+
+
+def judge_scale_probe(cfg, r):
+    sc = cfg["scale"]
+    if cfg["kind"] == "integer":
+        if "integer_scaled_accepted" in r and abs(r["integer_scaled_accepted"] - 1.0) > 1e-9:
+            return [{"what": "an integer variable with scale=%s was accepted: the integer solver variable is the physical value / scale, "
+                             "the physical variable lives on scale*Z" % sc, "d_physical_d_solver": r["integer_scaled_accepted"]}]
+        return []
+    if "error" in r:
+        return [{"what": "rockit raised in a scale probe", "error": r["error"]}]
+    if cfg["kind"] == "bspline":
+        if not engine.close(r["dphysical_dsolver_sum"], sc):
+            return [{"what": "variable(grid='bspline', scale=s): the spline value is not s times the solver coefficients",
+                     "sum of d value / d coefficients": r["dphysical_dsolver_sum"], "scale": sc}]
+        return []
+    a, b = r["rows_unscaled"], r["rows_scaled"]
+    if len(a) != len(b) or not all(engine.close(y * sc, x, scale=abs(x)) for x, y in zip(a, b)):
+        return [{"what": "%s constraint with scale=%s: rows are not the unscaled rows divided by the scale" %
+                         ("grid='inf'" if cfg["kind"] == "inf" else "point (method-less master)", sc), "unscaled": a[:6], "scaled": b[:6]}]
+    return []
+
+
 class C14Prop(NlpProp):
     def run(self, tier="quick", seed=0, jobs=16):
         res = NlpProp.run(self, tier, seed, jobs)
+        import multiprocessing as mp
+        pcfg = [{"kind": k, "scale": s, "method": m} for k in ("inf", "master", "bspline", "integer") for s in (5.0, 0.25)
+                for m in ("MS", "SS", "DC")]
+        with mp.get_context("fork").Pool(min(jobs, len(pcfg))) as pool:
+            rp = pool.map(scale_probe_worker, pcfg, chunksize=1)
+        for cfg, r in zip(pcfg, rp):
+            d = judge_scale_probe(cfg, r)
+            if d:
+                res["disagreements"].append({"property": "C14", "finding_key": None, "case": dict(cfg, _probe=True), "points": [], "what": d})
+        res["evaluations"] += len(pcfg)
         n = 60 if tier == "quick" else 600
         cps = [cp for cp in self.gen_cases(seed + 41, n, self.opts_q if tier == "quick" else self.opts_t, 3)
                if has_scales(cp[0])]
@@ -103,4 +196,13 @@ P = C14Prop("C14", OPTS, OPTS_T, judge_kinds=None, judge_obj=True, nontrivial=la
                  "variable x declared scale (Jacobian of the read-back); "
                  "(2) metamorphic on rockit: scaled vs unscaled OCP agree row by row up to a positive factor, same "
                  "objective.  non-trivial = the case declares a scale; distinct by hash of the case")
-run, replay = P.run, P.replay
+run = P.run
+
+
+def replay(path):
+    d = json.load(open(path)) if False else __import__("json").load(open(path))
+    if d.get("case", {}).get("_probe"):
+        dd = judge_scale_probe(d["case"], scale_probe_worker(d["case"]))
+        print(__import__("json").dumps(dd, indent=1, default=str) if dd else "replay: agrees")
+        return 1 if dd else 0
+    return P.replay(path)
